@@ -545,6 +545,8 @@ int main(int argc, char** argv) {
     using W2 = Worlds<World<PA>, World<PB>>;
     using W3 = Worlds<World<PA>, World<PB>, World<PC>>;
     using WE = Worlds<World<PE1>, World<PE2>>;
+    // the two stock policies themselves, not rebound
+    using WS = Worlds<World<policy::debug>, World<policy::release>>;
     if (mode == "replay" && argc > 2) {
         std::string text = argv[2];
         std::vector<int> seq;
@@ -561,6 +563,8 @@ int main(int argc, char** argv) {
             run_sequence<W3>(seq, true);
         else if (family == "WE")
             run_sequence<WE>(seq, true);
+        else if (family == "WS")
+            run_sequence<WS>(seq, true);
         else
             run_sequence<W2>(seq, true);
         for (auto& c : g_cands)
@@ -579,6 +583,10 @@ int main(int argc, char** argv) {
         g_family = "WE";
         explore<WE>(4, shard, nshards, {});
         explore<WE>(3, shard, nshards, full_a);
+        g_family = "WS";
+        explore<WS>(3, shard, nshards, {});
+        explore<WS>(3, shard, nshards, full_a);
+        explore<WS>(3, shard, nshards, full_b);
     } else {
         g_family = "W2";
         explore<W2>(5, shard, nshards, {});
@@ -592,6 +600,11 @@ int main(int argc, char** argv) {
         explore<WE>(4, shard, nshards, full_a);
         explore<WE>(4, shard, nshards, full_b);
         explore<WE>(4, shard, nshards, both);
+        g_family = "WS";
+        explore<WS>(5, shard, nshards, {});
+        explore<WS>(4, shard, nshards, full_a);
+        explore<WS>(4, shard, nshards, full_b);
+        explore<WS>(3, shard, nshards, both);
         g_family = "W3";
         explore<W3>(4, shard, nshards, {});
         explore<W3>(3, shard, nshards, both);
